@@ -60,7 +60,10 @@ func externalMods(fn *ssa.Function) ([]string, bool) {
 			// the pointee is written by Store/Add/Swap/CompareAndSwap: callers inside the repository
 			// reach these through intrinsics; elsewhere only the atomic cell changes
 			return []string{"M$uint32", "M$uint64", "M$int32", "M$int64", "M$uintptr", "M$unsafe.Pointer", "prefix:sync/atomic.", "F$sync/atomic.Value$v", "F$sync/atomic.Bool$v", "F$sync/atomic.Uint32$v", "F$sync/atomic.Uint64$v", "F$sync/atomic.Int32$v", "F$sync/atomic.Int64$v"}, true
-		case strings.HasPrefix(path, "crypto/") && path != "crypto/x509" && path != "crypto/tls", path == "crypto", strings.HasPrefix(path, "hash"),
+		case path == "crypto/x509" || strings.HasPrefix(path, "crypto/x509/") || path == "encoding/asn1" || path == "encoding/pem":
+			// certificate parsing and verification build new objects and touch nothing that exists
+			return []string{"$alloc", "N$*"}, true
+		case strings.HasPrefix(path, "crypto/") && path != "crypto/tls", path == "crypto", strings.HasPrefix(path, "hash"),
 			strings.HasPrefix(path, "golang.org/x/crypto/") && path != "golang.org/x/crypto/cryptobyte":
 			// crypto library code writes only its own objects and the byte buffers handed to it
 			return []string{"$alloc", "M$uint8"}, true
